@@ -306,7 +306,30 @@ def orders(vs, extras, rng):
     ones a fast path is most likely to mistake for the natural layout (interior swap,
     rotation, reversal, extras interleaved or in front)."""
     nat = sorted(vs, key=lambda v: natkey(v.name))
-    k = rng.randrange(7)
+    k = rng.randrange(9)
+    if k >= 7 and len(nat) >= 3:
+        # endpoint trap: the first and the last element of a vector sit exactly len-1 apart, but what lies between them is
+        # NOT the vector's interior (foreign variables and / or the interior permuted); the true interior goes elsewhere
+        import re as _re
+        groups = {}
+        for v in nat:
+            groups.setdefault(_re.sub(r"\[.*$", "", v.name), []).append(v)
+        blocks = [g_ for g_ in groups.values() if len(g_) >= 3]
+        if blocks:
+            blk = rng.choice(blocks)
+            first, last, interior = blk[0], blk[-1], blk[1:-1]
+            others = [v for v in nat if v not in blk] + list(extras)
+            while len(others) < len(interior):
+                others.append(type(nat[0])(f"zz_extra{len(others)}"))
+            rng.shuffle(others)
+            rng.shuffle(interior)
+            take = rng.randint(1, len(interior))
+            middle = others[:take] + interior[:len(interior) - take]
+            rng.shuffle(middle)
+            rest = others[take:] + interior[len(interior) - take:]
+            rng.shuffle(rest)
+            cut = rng.randint(0, len(rest))
+            return rest[:cut] + [first] + middle + [last] + rest[cut:]
     if k == 0 or len(nat) < 3:
         V = nat + extras
         rng.shuffle(V)
